@@ -52,6 +52,7 @@ pub fn ref_plan(op: &Op, env: &Option<String>) -> Plan {
         log_yield_ppm: 0,
         sentinel: vec![],
         keep_log: false,
+        heap_perturb: 0,
     }
 }
 
